@@ -761,10 +761,18 @@ fn cmd_one(args: &[String]) -> i32 {
         Some(p) => p,
         None => return 2,
     };
-    let seed: u64 = args[2].parse().unwrap();
+    // `one <Cxx> <scenario> <seed>` or `one <Cxx> @ <run index> [master seed]` (the run a batch executes at that index)
+    let (scenario, seed): (String, u64) = if args[1] == "@" {
+        let master: u64 = args.get(3).and_then(|s| s.parse().ok()).unwrap_or(1);
+        let seed = seed_for(master, p.id(), 0, args[2].parse().unwrap());
+        (pick_scenario(p, seed).to_string(), seed)
+    } else {
+        (args[1].clone(), args[2].parse().unwrap())
+    };
+    eprintln!("scenario={} seed={}", scenario, seed);
     let trace = args.iter().any(|a| a == "--trace");
     let ctx = RunCtx { seed, tier: Tier::Quick, trace, program: None };
-    let r = p.run_one(&args[1], &ctx);
+    let r = p.run_one(&scenario, &ctx);
     for t in r.trace.iter() {
         println!("{}", t);
     }
